@@ -16,7 +16,7 @@ pub fn def() -> PropDef {
         rule: "programs: enums reachable from the 3-variant base by <=k deviations over variant kinds (core-only field palette), serialize / to_string / positional and named \
                placeholders, disabled, default, transparent, default_with, ascii_case_insensitive, message / detailed_message / docs / props, explicit discriminants, repr, \
                serialize_all, prefix, parse_err_*, const_into_str, generics <T>, <const N>, <'a>, strum_discriminants(derive/name/vis/pass-through); each program carries EVERY \
-               non-deprecated derive it admits. configurations: (a) #![no_std] edition-2018 lib without alloc, strum default-features=false; (b) strum reachable only as `strum_x` / \
+               non-deprecated derive it admits. configurations: (a) #![no_std] edition-2018 lib without alloc, strum default-features=false, plus ONE final artifact (a freestanding no_std / no_main binary without a global allocator that links a no_std library using the derives); (b) strum reachable only as `strum_x` / \
                `crate::re::strum_x` / `::strum_x` / a `use .. as st` alias through #[strum(crate = ..)]; (c) `mod core {}` / `mod std {}` declared next to every enum. oracle: rustc accepts the module; any diagnostic is \
                attributed to its program. non-trivial = every (program, configuration) pair with >= 1 deviation",
         trusted_base: &["rustc (type checking of the expanded code)", "the admissible-derive table in vf-core/props/c19.rs"],
@@ -236,6 +236,12 @@ fn alphabet(n: usize, full: bool) -> Vec<Dev> {
     }));
     d.push(dev("discriminants: derive(EnumIter, Display, EnumString, Hash) + pass-through strum attrs", &["dd"], |s| {
         s.extra_attrs.push("#[strum_discriminants(derive(STRUM::EnumIter, STRUM::Display, STRUM::EnumString, STRUM::EnumCount, Hash), strum(serialize_all = \"snake_case\"CRATEATTR))]".into());
+        true
+    }));
+    // the crate path travels in ONE strum(..) pass-through, another strum(..) pass-through follows in a second attribute
+    d.push(dev("discriminants: derive(EnumIter, EnumCount) + strum(crate = ..) pass-through, then a second strum(..) pass-through", &["dd"], |s| {
+        s.extra_attrs.push("#[strum_discriminants(derive(STRUM::EnumIter, STRUM::EnumCount, STRUM::Display)STRUMCRATE)]".into());
+        s.extra_attrs.push("#[strum_discriminants(strum(serialize_all = \"snake_case\"))]".into());
         true
     }));
     d.push(dev("discriminants: variant pass-through message", &["dd"], |s| {
